@@ -402,7 +402,7 @@ func c19RunSettings(c *Ctx, fields []driver.VerifField) {
 		}
 		return ops
 	}
-	for k := 0; k < c.Budget(180, 3000); k++ {
+	for k := 0; k < c.Budget(150, 3000); k++ {
 		cur := jsonSafe()
 		if c.R.P(1, 5) {
 			cur = c19GenConfig(c.R, fields) // may hold NaN/Inf: saving then fails in json.Marshal
@@ -497,6 +497,7 @@ func c19RunSettings(c *Ctx, fields []driver.VerifField) {
 	c.Extra["read_faults_producible"] = c19ReadFaultWorks()
 	c19RunConc(c, fields)
 	c19RunBurst(c, fields)
+	c19RunE2E(c, fields)
 }
 
 // c19RunConc: n concurrent save/delete requests against one settings file; the observable is the
@@ -593,7 +594,7 @@ func c19Fire(dir, fname string, cur driver.VerifConfig, ops []c19Op, viaHTTP boo
 func c19RunBurst(c *Ctx, fields []driver.VerifField) {
 	prev := runtime.GOMAXPROCS(8)
 	defer runtime.GOMAXPROCS(prev)
-	for k := 0; k < c.Budget(60, 600); k++ {
+	for k := 0; k < c.Budget(40, 600); k++ {
 		dir, fname := c19Dir()
 		cur := driver.VerifDefaultConfig()
 		driver.VerifSetCurrentConfig(cur)
